@@ -61,7 +61,7 @@ def compile_ir(outdir, units=None, extra=(), exceptions=False, tag=''):
 
 def build_lib(outdir, extra=()):
     """g++ -O0 build of every library source of the default configuration -> list of object files"""
-    srcs = sorted(f for f in os.listdir(os.path.join(REPO, 'src')) if f.endswith('.cpp'))
+    srcs = sorted(f for f in os.listdir(os.path.join(REPO, 'src')) if f.endswith('.cpp') and f != 'version.cpp')
 
     def one(f):
         o = os.path.join(outdir, f[:-4] + '.o')
@@ -79,6 +79,10 @@ def build_lib(outdir, extra=()):
 
 
 if __name__ == '__main__':
+    if sys.argv[1] == '--setup':
+        ensure_irdump()
+        print('irdump built')
+        sys.exit(0)
     d = sys.argv[1]
     os.makedirs(d, exist_ok=True)
     compile_ir(d)
